@@ -11,6 +11,7 @@ import (
 	"github.com/internetarchive/Zeno/internal/pkg/log"
 	"github.com/internetarchive/Zeno/internal/pkg/reactor"
 	"github.com/internetarchive/Zeno/internal/pkg/stats"
+	"github.com/internetarchive/Zeno/internal/pkg/verifhook"
 	"github.com/internetarchive/Zeno/pkg/models"
 )
 
@@ -107,6 +108,7 @@ func (f *finisher) worker(workerID string) {
 				}
 
 				logger.Debug("received seed", "seed", seed.GetShortID())
+				verifhook.At("fin.in", seed)
 
 				if err := seed.CheckConsistency(); err != nil {
 					panic(fmt.Sprintf("seed consistency check failed with err: %s, seed id %s, worker id %s", err.Error(), seed.GetShortID(), workerID))
@@ -115,6 +117,7 @@ func (f *finisher) worker(workerID string) {
 				// If the seed is fresh, send it to the source
 				if seed.GetStatus() == models.ItemFresh {
 					logger.Debug("fresh seed received", "seed", seed)
+					verifhook.At("fin.produce", seed)
 					f.sourceProducedCh <- seed
 					continue
 				}
@@ -123,6 +126,7 @@ func (f *finisher) worker(workerID string) {
 				isComplete := seed.CompleteAndCheck()
 				if !isComplete {
 					logger.Debug("seed has fresh children", "seed", seed.GetShortID())
+					verifhook.At("fin.feedback", seed)
 					err := reactor.ReceiveFeedback(seed)
 					if err != nil && err != reactor.ErrReactorFrozen {
 						panic(err)
@@ -136,6 +140,7 @@ func (f *finisher) worker(workerID string) {
 				if err != nil {
 					panic(err)
 				}
+				verifhook.At("fin.finished", seed)
 
 				// Notify the source that the seed has been finished
 				// E.g.: to delete the seed in Crawl HQ
@@ -143,6 +148,7 @@ func (f *finisher) worker(workerID string) {
 					f.sourceFinishedCh <- seed
 				}
 
+				verifhook.At("fin.notified", seed)
 				stats.SeedsFinishedIncr()
 				logger.Debug("seed finished", "seed", seed.GetShortID())
 			}
